@@ -41,6 +41,8 @@ struct Thr {
     int prio;
     int role;
     int lastSite;
+    long lastRun;        // step at which the thread was last chosen or became runnable (anti-starvation)
+    bool seenRunnable;
     pthread_t pt;
     void* (*fn)(void*);
     void* arg;
@@ -57,7 +59,9 @@ static uint64_t rng = 0;
 static long long vnow = 0;
 static std::vector<Actor*> actors;
 static std::vector<int> actorPrio;
+static std::vector<long> actorSince; // step at which the actor became ready (-1 = not ready)
 static int timerPrio = 0;
+static long timerSince = -1;
 static std::vector<long> pctPoints;
 static int pctNext = 0;
 static size_t freezeNext = 0, jumpNext = 0;
@@ -86,12 +90,15 @@ static void fwake(int* f) {
     syscall(SYS_futex, f, FUTEX_WAKE_PRIVATE, 1, nullptr, nullptr, 0);
 }
 
+std::string dumpThreads();
 static void fatal(const char* kind, const std::string& detail) {
     if (onFatal)
         onFatal(kind, detail);
     fprintf(stderr, "VSIM FATAL %s: %s\n", kind, detail.c_str());
     _exit(90);
 }
+
+void fatalExternal(const char* kind, const std::string& detail) { fatal(kind, detail + " " + dumpThreads()); }
 
 std::string dumpThreads() {
     static const char* names[] = {"RUNNABLE", "BLK_MUTEX", "BLK_COND", "BLK_JOIN", "BLK_SLEEP", "BLK_EVENT", "DONE"};
@@ -144,6 +151,7 @@ const Stats& stats() { return st_; }
 void addActor(Actor* a) {
     actors.push_back(a);
     actorPrio.push_back(cfg.pctDepth + 1 + (int)(rnd() % 1000));
+    actorSince.push_back(-1);
 }
 
 long long nextDeadline() {
@@ -164,6 +172,12 @@ bool allParked() {
         if (th[i].st != DONE && th[i].deadline >= 0) return false;
     }
     return true;
+}
+
+bool isBlockedIdle(int tid) {
+    if (tid < 0 || tid >= nth) return true;
+    St s = th[tid].st;
+    return s == BLK_SLEEP || s == BLK_COND || s == BLK_JOIN || s == BLK_EVENT || s == DONE;
 }
 
 bool allOthersDone() {
@@ -224,6 +238,8 @@ static int choose(const int* cand, int n) {
         return best;
     }
     case ST_RTB: {
+        // run-to-block, lowest id next; a small random pre-emption rate keeps it fair
+        if (rnd01() < cfg.pctEps) return cand[rnd() % n];
         for (int i = 0; i < n; i++) if (cand[i] == cur) return cur;
         return cand[0];
     }
@@ -273,19 +289,29 @@ static void reschedule(bool exiting) {
         bool timeRoleRunnable = false;
         int nFrozen = 0;
         for (int i = 0; i < nth; i++) {
-            if (th[i].st != RUNNABLE) continue;
+            if (th[i].st != RUNNABLE) { th[i].seenRunnable = false; continue; }
+            if (!th[i].seenRunnable) { th[i].seenRunnable = true; th[i].lastRun = (long)st_.steps; }
             if (th[i].frozenUntil > (long)st_.steps) { nFrozen++; continue; }
             cand[n++] = i;
             if (cfg.timeRoleMask & (1u << th[i].role)) timeRoleRunnable = true;
         }
         if ((uint64_t)n > st_.maxRunnable) st_.maxRunnable = n;
         bool actorReady = false;
-        for (size_t i = 0; i < actors.size(); i++)
-            if (actors[i]->ready()) { cand[n++] = C_ACTOR + (int)i; actorReady = true; }
+        for (size_t i = 0; i < actors.size(); i++) {
+            if (actors[i]->ready()) {
+                cand[n++] = C_ACTOR + (int)i;
+                actorReady = true;
+                if (actorSince[i] < 0) actorSince[i] = (long)st_.steps;
+            } else
+                actorSince[i] = -1;
+        }
         long long dl = nextDeadline();
         if (dl >= 0 && dl <= vnow) dl = -1; // already due: the owner is (or will be) a candidate
-        if (dl >= 0 && !timeRoleRunnable && !actorReady)
+        if (dl >= 0 && !timeRoleRunnable && !actorReady) {
             cand[n++] = C_TIMER;
+            if (timerSince < 0) timerSince = (long)st_.steps;
+        } else
+            timerSince = -1;
         if (n == 0) {
             if (nFrozen > 0) { // everything runnable is frozen: thaw
                 for (int i = 0; i < nth; i++) th[i].frozenUntil = 0;
@@ -294,7 +320,19 @@ static void reschedule(bool exiting) {
             if (dl >= 0) { vnow = dl; st_.timerJumps++; continue; }
             fatal("deadlock", dumpThreads());
         }
-        int c = choose(cand, n);
+        int c = -1;
+        if (cfg.starveLimit > 0) { // bounded unfairness: nobody stays runnable but unscheduled for too long
+            long oldest = (long)st_.steps - cfg.starveLimit;
+            for (int i = 0; i < n; i++) {
+                long since = cand[i] == C_TIMER ? timerSince : cand[i] >= C_ACTOR ? actorSince[cand[i] - C_ACTOR] : th[cand[i]].lastRun;
+                if (since < oldest) { oldest = since; c = cand[i]; }
+            }
+            if (c >= 0) st_.starveRescues++;
+        }
+        if (c < 0) c = choose(cand, n);
+        if (c < C_ACTOR) th[c].lastRun = (long)st_.steps;
+        else if (c == C_TIMER) timerSince = -1;
+        else actorSince[c - C_ACTOR] = -1;
         if (cfg.strategy == ST_PCT && pctNext < (int)pctPoints.size() && (long)st_.steps >= pctPoints[pctNext]) {
             lowerPrio(c, cfg.pctDepth - pctNext);
             pctNext++;
@@ -487,6 +525,7 @@ int __wrap_pthread_create(pthread_t* pt, const pthread_attr_t* a, void* (*fn)(vo
     t.role = (id == 1 && th[0].role == R_ENGINE) ? R_PROTO : R_HELPER;
     t.prio = cfg.pctDepth + 1 + (int)(rnd() % 1000);
     t.lastSite = S_START;
+    t.lastRun = (long)st_.steps;
     nth++;
     st_.threadsCreated++;
     int r = __real_pthread_create(pt, a, trampoline, (void*)(intptr_t)id);
